@@ -222,3 +222,33 @@ func c02Wide(c *Ctx, idx int) {
 		c.Nontrivial(form, fmt.Sprint(n))
 	}
 }
+
+// numeric-boundaries: every builtin that reads numbers, over integers and
+// decimals at the machine-width boundaries, given as numbers, as strings
+// (to_number) and inside arrays.
+var c02NumForms = []string{"to_number('%s')", "to_number(`\"%s\"`)", "to_number(`%s`)", "abs(`%s`)", "ceil(`%s`)", "floor(`%s`)", "to_string(`%s`)", "sum([`%s`, `1`])", "sum([`%s`, `%s`])", "avg([`%s`, `%s`])", "max([`1`, `%s`])", "min([`%s`, `-1`])",
+	"sort([`%s`, `0`, `%s`])", "sort_by([{k: `%s`}, {k: `0`}], &k)[0].k", "max_by([{k: `%s`}, {k: `1`}], &k).k", "min_by([{k: `%s`}, {k: `1`}], &to_number(to_string(k))).k", "contains([`%s`], `%s`)", "to_number('%s') == `%s`", "to_number('%s') > `1`", "abs(to_number('%s')) - `1`",
+	"sort(map(&to_number(@), ['%s', '1', '-1']))", "sum(map(&to_number(@), ['%s', '%s']))", "type(`%s`)", "not_null(to_number('%s'), 'N')", "`%s` + `1`", "`%s` * `2`", "`%s` - `1`", "`%s` * `%s`", "-`%s`", "`%s` // `1`", "`%s` % `10`", "zip([`%s`], ['%s'])", "join('', [to_string(`%s`)])",
+	"find_first('abcabc', 'c', `%s`)", "find_last('abcabc', 'c', `0`, `%s`)", "split('a,b', ',', `%s`)", "replace('aaa', 'a', 'b', `%s`)", "'abcdef'[`0`:1] || `%s`"}
+
+func c02NumBoundN(c *Ctx) int { return len(c01NumB) * len(c02NumForms) }
+
+func c02NumBound(c *Ctx, idx int) {
+	y := c01NumB[idx%len(c01NumB)]
+	form := c02NumForms[idx/len(c01NumB)]
+	text := strings.ReplaceAll(form, "%s", y)
+	doc := ref.NewObj()
+	doc.Set("y", gen.Num(y))
+	m, _ := c.CheckModel("C02", text, doc, ref.ToGo(doc, ref.JSONNumber), CheckOpts{Compiled: idx%3 == 0, Features: map[string]string{"function": text[:strings.IndexAny(text, "(`'")+1], "stream": "numeric-boundaries"}})
+	if !m.Unspec {
+		c.Nontrivial(text)
+	}
+	// the same with the number coming from the document
+	if strings.Count(form, "`%s`") > 0 && !strings.Contains(form, "'%s'") {
+		text2 := strings.ReplaceAll(form, "`%s`", "y")
+		m2, _ := c.CheckModel("C02", text2, doc, ref.ToGo(doc, ref.JSONNumber), CheckOpts{Features: map[string]string{"stream": "numeric-boundaries/doc"}})
+		if !m2.Unspec {
+			c.Nontrivial(text2, y)
+		}
+	}
+}
